@@ -403,7 +403,76 @@ def _on_step(res, rng, script=None):
     return on_step
 
 
+def empty_containers(res):
+    """Reads of empty tables and rows, in every position form (also negative plain ints): an empty cell / row /
+    column or an empty list comes back, nothing is raised, nothing grows."""
+    from odfdo import Cell, Column, Row, Table
+
+    def tables():
+        t1 = Table("deleted", 2, 2)
+        t1.delete_row(0)
+        t1.delete_row(0)
+        t2 = Table("cleared", 3, 2)
+        t2.clear()
+        t3 = Table("one-empty-row")
+        t3.append_row(Row())
+        return {"Table()": Table("e"), "all-rows-deleted": t1, "cleared": t2, "row-without-cells": t3}
+
+    positions = [0, 1, -1, -2, 5]
+    for tname, t in tables().items():
+        calls = {}
+        for p_ in positions:
+            calls[f"get_row({p_})"] = (lambda p_=p_: t.get_row(p_), Row)
+            calls[f"get_column({p_})"] = (lambda p_=p_: t.get_column(p_), Column)
+            calls[f"get_column_cells({p_})"] = (lambda p_=p_: t.get_column_cells(p_), list)
+            calls[f"get_column_values({p_})"] = (lambda p_=p_: t.get_column_values(p_), list)
+            calls[f"get_row_values({p_})"] = (lambda p_=p_: t.get_row_values(p_), list)
+            calls[f"get_cell(({p_},{p_}))"] = (lambda p_=p_: t.get_cell((p_, p_)), Cell)
+            calls[f"get_value(({p_},{p_}))"] = (lambda p_=p_: t.get_value((p_, p_)), type(None))
+            calls[f"get_row({p_}).get_cell({p_})"] = (lambda p_=p_: t.get_row(p_).get_cell(p_), Cell)
+        calls["get_cell('A1')"] = (lambda: t.get_cell("A1"), Cell)
+        calls["get_cells()"] = (lambda: t.get_cells(), list)
+        calls["get_rows()"] = (lambda: t.get_rows(), list)
+        calls["get_values()"] = (lambda: t.get_values(), list)
+        calls["traverse"] = (lambda: list(t.traverse()), list)
+        calls["get_cells((0,0,2,2))"] = (lambda: t.get_cells((0, 0, 2, 2)), list)
+        before = t.serialize()
+        size = tuple(t.size)
+        for cname, (fn, typ) in calls.items():
+            res.judge()
+            res.cls(("empty-container", tname, cname.split("(")[0], "negative" if "-" in cname else "non-negative"), True)
+            case = {"empty": tname, "call": cname}
+            try:
+                r = fn()
+            except Exception as e:
+                res.violation(f"empty:{cname.split('(')[0]}:raised:{type(e).__name__}", {"table": tname, "call": cname, "exc": repr(e)}, case)
+                continue
+            if not isinstance(r, typ):
+                res.violation(f"empty:{cname.split('(')[0]}:wrong-kind", {"table": tname, "call": cname, "got": type(r).__name__}, case)
+            if t.serialize() != before or tuple(t.size) != size:
+                res.violation(f"empty:{cname.split('(')[0]}:table-changed", {"table": tname, "call": cname}, case)
+                before = t.serialize()
+    for rname, r in {"Row()": Row(), "Row(0)": Row(0)}.items():
+        before = r.serialize()
+        for p_ in positions:
+            for cname, fn, typ in ((f"Row.get_cell({p_})", lambda p_=p_: r.get_cell(p_), Cell), (f"Row.get_value({p_})", lambda p_=p_: r.get_value(p_), type(None))):
+                res.judge()
+                res.cls(("empty-container", rname, cname.split("(")[0], "negative" if "-" in cname else "non-negative"), True)
+                case = {"empty": rname, "call": cname}
+                try:
+                    x = fn()
+                    if not isinstance(x, typ):
+                        res.violation(f"empty:{cname.split('(')[0]}:wrong-kind", {"row": rname, "call": cname, "got": type(x).__name__}, case)
+                except Exception as e:
+                    res.violation(f"empty:{cname.split('(')[0]}:raised:{type(e).__name__}", {"row": rname, "call": cname, "exc": repr(e)}, case)
+                if r.serialize() != before:
+                    res.violation(f"empty:{cname.split('(')[0]}:row-changed", {"row": rname, "call": cname}, case)
+                    before = r.serialize()
+
+
 def run(ctx, res):
+    if ctx.shard == 0:
+        empty_containers(res)
     for c in range(CASES[ctx.tier]):
         rng = ctx.rng(c)
         vals = TL.Vals()
@@ -435,6 +504,12 @@ def run(ctx, res):
 
 
 def replay(case):
+    if "empty" in case:
+        from ..core import Res
+
+        r = Res()
+        empty_containers(r)
+        return [v for v in r.violations if v["case"] == case]
     import random
 
     c = case["case"]
@@ -443,7 +518,7 @@ def replay(case):
 
 
 MANIFEST = {
-    "text": "Exploration by runtime monitoring: on tables reached by generated histories every getter family is called with coordinates aimed at repeated runs, range starts on the last item of a run, edges and beyond; the monitor compares the stamped coordinates, values and counts with the model, requires expanded reads to carry no repeat attribute and the read to leave the table byte-identical, then mutates one returned object and requires the table and every other returned object to stay byte-identical. Held = no scenario violated on those observed.",
+    "text": "Exploration by runtime monitoring: on tables reached by generated histories every getter family is called with coordinates aimed at repeated runs, range starts on the last item of a run, edges and beyond; the monitor compares the stamped coordinates, values and counts with the model, requires expanded reads to carry no repeat attribute and the read to leave the table byte-identical, then mutates one returned object and requires the table and every other returned object to stay byte-identical. Reads of empty tables and rows in every position form (also negative plain ints) must return empty objects without raising or growing anything. Held = no scenario violated on those observed.",
     "note": "Trusted: O-GRID for the expected coordinates/values; 'documented as a copy' is read from the docstrings (default arguments). Single-item getters may keep a repeat attribute (documented keep_repeated default).",
     "technique": "runtime monitoring: post-condition monitor on getter results + before/after digests around mutations of returned objects",
 }
